@@ -1574,12 +1574,225 @@ def c18(ctx):
     ctx.assumptions += X_ASSUMPTIONS + ['cargo check of the proc-macro crate reports the same errors and warnings as a full build']
 
 
+# ---------------------------------------------------------------- C19
+RUST_KEYWORDS = set('as break const continue crate else enum extern false fn for if impl in let loop match mod move mut pub ref return self Self static struct super trait true '
+                    'type unsafe use where while async await dyn abstract become box do final macro override priv typeof unsized virtual yield try union '
+                    'u8 u16 u32 u64 u128 usize i8 i16 i32 i64 i128 isize bool char str f32 f64'.split())
+SHADOW_ENV = ('#[allow(dead_code, non_camel_case_types, non_snake_case, unused)] pub mod shadow { pub struct Option; pub struct Result; pub struct Ordering; pub struct Box; '
+              'pub struct Vec; pub struct String; pub struct Formatter; pub struct PhantomData; pub enum Tri { Some, None, Ok, Err, Less, Equal, Greater } pub use self::Tri::*; '
+              'pub trait Clone {} pub trait Copy {} pub trait Default {} pub trait Debug {} pub trait PartialEq {} pub trait Eq {} pub trait PartialOrd {} pub trait Ord {} '
+              'pub trait Hash {} pub trait Hasher {} pub trait Into {} pub trait From {} pub trait Deref {} pub trait DerefMut {} pub trait Sized_ {} '
+              'pub fn drop() {} pub fn size_of() {} pub mod fmt {} pub mod cmp {} pub mod hash {} pub mod mem {} pub mod slice {} pub mod marker {} }')
+
+
+SHADOW_NAMES = ['Option', 'Result', 'Ordering', 'Box', 'Vec', 'String', 'Formatter', 'PhantomData', 'Some', 'None', 'Ok', 'Err', 'Less', 'Equal', 'Greater',
+                'Clone', 'Copy', 'Default', 'Debug', 'PartialEq', 'Eq', 'PartialOrd', 'Ord', 'Hash', 'Hasher', 'Into', 'From', 'Deref', 'DerefMut',
+                'drop', 'size_of', 'fmt', 'cmp', 'hash', 'mem', 'slice', 'marker']
+
+
+def hostile_item(h, n):
+    """render one HOSTILE record as a module with the item inside the shadowing environment"""
+    import re as _re
+    pos, ident, kind, ts = h['pos'], h['id'], h['kind'], h['traits']
+    tname = ident if pos == 'typename' else 'Tx'
+    fa = ident if pos == 'field' else 'xa'
+    v1 = ident if pos == 'variant' else 'Va'
+    gen = ''
+    extra_named = ''
+    extra_tuple = ''
+    helper = ''
+    if pos == 'typeparam':
+        gen, extra_named, extra_tuple = '<%s>' % ident, ', xg: %s' % ident, ', %s' % ident
+    elif pos == 'constparam':
+        gen = '<const %s: usize>' % ident
+        helper += 'fn mk_arr<const K: usize>() -> [u8; K] { [0; K] } '
+        extra_named = ', #[educe(Default = mk_arr())] xg: [u8; %s]' % ident if ts == 'cmp8' else ', xg: [u8; %s]' % ident
+        extra_tuple = ', [u8; %s]' % ident
+    elif pos == 'lifetime':
+        gen = "<'%s>" % ident
+        helper += "fn mk_ref() -> &'static u8 { &0 } "
+        extra_named = ", #[educe(Default = mk_ref())] xg: &'%s u8" % ident if ts == 'cmp8' else ", xg: &'%s u8" % ident
+        extra_tuple = ", &'%s u8" % ident
+    if ts == 'cmp8':
+        traits = 'Debug, Clone, PartialEq, Eq, PartialOrd, Ord, Hash, Default'
+        ma = ''
+        if pos == 'method':
+            helper += 'fn %s(v: &u8, x: &mut ::core::fmt::Formatter<\'_>) -> ::core::fmt::Result { ::core::fmt::Debug::fmt(v, x) } ' % ident
+            ma = '#[educe(Debug(method(%s)))] ' % ident
+        if kind == 'struct':
+            item = '#[derive(Educe)] #[educe(%s)] struct %s%s { %s%s: u8, xb: u16%s }' % (traits, tname, gen, ma, fa, extra_named)
+        else:
+            item = ('#[derive(Educe)] #[educe(%s)] enum %s%s { #[educe(Default)] %s { %s%s: u8, xb: u16%s }, Vb(u8, u16%s), Vc }'
+                    % (traits, tname, gen, v1, ma, fa, extra_named, extra_tuple))
+    else:
+        traits = 'Copy, Clone, Deref, DerefMut, Into(u16)'
+        if pos == 'method':
+            return None
+        if kind == 'struct':
+            item = '#[derive(Educe)] #[educe(%s)] struct %s%s { #[educe(Deref, DerefMut)] %s: u8, xb: u16%s }' % (traits, tname, gen, fa, extra_named)
+        else:
+            item = ('#[derive(Educe)] #[educe(%s)] enum %s%s { %s { #[educe(Deref, DerefMut)] %s: u8, xb: u16%s }, Vb(#[educe(Deref, DerefMut)] u8, u16%s) }'
+                    % (traits, tname, gen, v1, fa, extra_named, extra_tuple))
+    # lints about the style of the *user's own* identifier are the user's business, not the macro's: allow exactly
+    # the lint the chosen identifier itself trips
+    allow = []
+    camel = bool(_re.match(r'^[A-Z][A-Za-z0-9]*$', ident))
+    snake = bool(_re.match(r'^_*[a-z0-9]+(_[a-z0-9]+)*_*$', ident)) or ident.strip('_') == ''
+    if pos in ('variant', 'typename', 'typeparam') and not camel:
+        allow.append('non_camel_case_types')
+    if pos == 'constparam' and not _re.match(r'^[A-Z][A-Z0-9_]*$', ident):
+        allow.append('non_upper_case_globals')
+    if pos in ('field', 'method', 'lifetime') and not snake:
+        allow.append('non_snake_case')
+    al = '#[allow(%s)] ' % ', '.join(allow) if allow else ''
+    # the shadowing environment, minus the user's own identifier (a second item of that name in the user's scope
+    # would be the user's own ambiguity)
+    names = [x for x in SHADOW_NAMES if x != ident]
+    return ('%smod m%d { #[allow(unused_imports)] use super::shadow::{%s}; use educe::Educe; %s%s }' % (al, n, ', '.join(names), helper, item)), item
+
+
+def c19(ctx):
+    import cases
+    import re as _re
+    quick = ctx.tier == 'quick'
+    # 1. the identifier pool, recorded from real expansions
+    corpus = rpipe.model_check(ctx, [{'module': 'MC_C01', 'cfg': 'MC_C01_quick.cfg', 'workers': 8}], ['Seal'])
+    exe = xchan.build(ctx)
+    reqs = []
+    for i, c in enumerate(corpus, 1):
+        r = MultiRender(i, c, 'C19', canonical=True, name='T')
+        reqs.append({'id': i, 'text': r.item(derive=False)})
+    extra = ['#[educe(Copy, Clone, Deref, DerefMut, Into(u16))] struct T { #[educe(Deref, DerefMut)] f1: u8, f2: u16 }',
+             '#[educe(Copy, Clone, Deref, DerefMut, Into(u16))] enum T { V1 { #[educe(Deref, DerefMut)] f1: u8, f2: u16 }, V2(#[educe(Deref, DerefMut)] u8, u16) }',
+             '#[educe(Debug(unsafe), PartialEq(unsafe), Hash(unsafe), Clone, Copy, Default)] union T { f1: u8 }',
+             '#[educe(Debug(name = false))] struct T { #[educe(Debug(method(m)))] f1: u8 }']
+    reqs += [{'id': 'x%d' % k, 'text': t} for k, t in enumerate(extra)]
+    identre = _re.compile(r"[A-Za-z_][A-Za-z_0-9]*")
+    pool = set()
+    for r, q in zip(xchan.expand(exe, reqs), reqs):
+        if r['outcome'] != 'ok':
+            continue
+        pool |= set(identre.findall(r['out'])) - set(identre.findall(q['text']))
+    pool = sorted(x for x in pool if x not in RUST_KEYWORDS and not x.startswith('probes') and x != '_')
+    lower = [x for x in pool if x[0].islower() or x[0] == '_']
+    facts_path = os.path.join(ctx.workdir, 'facts.json')
+    json.dump({'pool': pool, 'lower': lower}, open(facts_path, 'w'))
+    ctx.info('identifier pool recorded from %d expansions: %d identifiers' % (len(reqs), len(pool)))
+    st = dict(ctx.coverage)
+    res = tlcmod.run_mc('MC_C19', 'MC_C19.cfg', ctx.workdir, workers=4, timeout=600, tags=('HOSTILE',), heap='4g', extra_env={'FACTS': facts_path})
+    if not res['ok']:
+        raise ToolError('MC_C19 failed:\n' + '\n'.join(res['text'].split('\n')[-30:]))
+    ctx.coverage['states'] = st['states'] + res['stats'].get('distinct', 0)
+    ctx.coverage['transitions'] = st['transitions'] + res['stats'].get('generated', 0)
+    ctx.coverage['mc_runs'] = st['mc_runs'] + [{'module': 'MC_C19', 'cfg': 'MC_C19.cfg', 'stats': res['stats']}]
+    hostile = []
+    seen = set()
+    for h in res['tagged']['HOSTILE']:
+        k = json.dumps(h, sort_keys=True)
+        if k not in seen:
+            seen.add(k)
+            hostile.append(h)
+    if set(h['id'] for h in hostile) != set(pool):
+        raise ToolError('MC_C19 did not use every pool identifier')
+    rendered = []
+    for n, h in enumerate(hostile):
+        out = hostile_item(h, n)
+        if out:
+            rendered.append((h, out[0], out[1]))
+    # in-process: accepted?
+    acc = xchan.expand(exe, [{'id': i, 'text': it[2].replace('#[derive(Educe)] ', '')} for i, it in enumerate(rendered)])
+    acc = {r['id']: r for r in acc}
+    per = {}
+    for variant, head in (('hostile', '#![allow(dead_code)]\n' + SHADOW_ENV), ('nostd', '#![no_std]\n#![allow(dead_code)]\n' + SHADOW_ENV)):
+        lines = head.split('\n')
+        line_of = {}
+        for i, (h, mod_text, item) in enumerate(rendered):
+            lines.append(mod_text)
+            line_of[len(lines)] = i
+        if variant == 'hostile':
+            lines.append('fn main() {}')
+            d = cases.write_crate('C19', '\n'.join(lines) + '\n')
+        else:
+            d = cases.crate_dir('C19_nostd')
+            os.makedirs(os.path.join(d, 'src'), exist_ok=True)
+            cases._write_if_changed(os.path.join(d, 'Cargo.toml'), '[package]\nname = "cases_c19_nostd"\nversion = "0.0.0"\nedition = "2021"\npublish = false\n\n[workspace]\n\n'
+                                    '[lib]\npath = "src/lib.rs"\n\n[dependencies]\neduce = { path = "/repo" }\n\n[profile.dev]\ndebug = false\nincremental = false\n')
+            os.makedirs(os.path.join(d, '.cargo'), exist_ok=True)
+            cases._write_if_changed(os.path.join(d, '.cargo', 'config.toml'), '[net]\noffline = true\n[build]\ntarget-dir = "../../target"\n')
+            cases._write_if_changed(os.path.join(d, 'src', 'lib.rs'), '\n'.join(lines) + '\n')
+            cases.ensure_lock(d)
+        ok, diags, exe2, wall, stderr = cases.cargo_build(d)
+        ctx.info('cargo build C19 (%s): ok=%s, %d diagnostics, %.1fs' % (variant, ok, len(diags), wall))
+        attributed = 0
+        for m in diags:
+            msg = m.get('message', {})
+            lvl = msg.get('level')
+            if lvl not in ('error', 'warning'):
+                continue
+            hit = None
+            for sp in msg.get('spans', []):
+                if sp.get('line_start') in line_of:
+                    hit = line_of[sp['line_start']]
+                    break
+            if hit is None:
+                if lvl == 'error' and not msg.get('message', '').startswith('aborting due to'):
+                    raise ToolError('unattributable rustc error (%s): %s' % (variant, (msg.get('rendered') or msg.get('message'))[:1500]))
+                continue
+            attributed += 1
+            p_ = per.setdefault((variant, hit), {'errors': [], 'warnings': 0, 'msgs': []})
+            if lvl == 'error':
+                p_['errors'].append((msg.get('code') or {}).get('code') or msg.get('message', '')[:80])
+            else:
+                p_['warnings'] += 1
+            p_['msgs'].append((msg.get('rendered') or msg.get('message', ''))[:1200])
+        if not ok and attributed == 0:
+            raise ToolError('cargo build (%s) failed without attributable errors:\n%s' % (variant, stderr[-2000:]))
+    trace = os.path.join(ctx.workdir, 'ktrace.ndjson')
+    recs = []
+    with open(trace, 'w') as f:
+        for variant in ('hostile', 'nostd'):
+            for i in range(len(rendered)):
+                p_ = per.get((variant, i), {'errors': [], 'warnings': 0, 'msgs': []})
+                e = {'t': i + 1, 'op': 'compile', 'context': variant, 'expand': acc[i]['outcome'], 'errors': p_['errors'], 'warnings': p_['warnings']}
+                recs.append((variant, i, p_))
+                f.write(json.dumps(e, separators=(',', ':')) + '\n')
+    tr = tlcmod.run_trace('TraceK', 'TraceK.cfg', ctx.workdir, {'TRACE': trace})
+    if not tr['consumed']:
+        raise ToolError('TraceK did not consume the trace:\n' + '\n'.join(tr['text'].split('\n')[-30:]))
+    ctx.info('K trace validated: %d records, %d rejected' % (tr['n'], len(tr['bad'])))
+    done = set()
+    for ln in tr['bad']:
+        variant, i, p_ = recs[ln - 1]
+        h = rendered[i][0]
+        key = {'kind': 'hostile-name', 'pos': h['pos'], 'id': h['id']}
+        kk = json.dumps(key, sort_keys=True)
+        if kk in done:
+            continue
+        done.add(kk)
+        ctx.violation(key, {'what': 'the derive does not compile cleanly (or is refused) when a user identifier coincides with a name the generated code uses, '
+                                    'inside a module shadowing prelude names / in a #![no_std] crate', 'context': variant, 'source': rendered[i][2],
+                            'shape': h['kind'], 'traits': h['traits'],
+                            'in_process': {'outcome': acc[i]['outcome'], 'err': acc[i].get('err')}, 'rustc': p_['msgs'][:4]})
+    ctx.coverage.update({
+        'traces_validated_against_impl': 1, 'trace_events': tr['n'], 'trace_events_rejected': len(tr['bad']),
+        'programs': len(rendered), 'evaluations': tr['n'], 'distinct_nontrivial': len(rendered),
+        'identifier_pool': pool,
+        'rule': 'identifier pool = every identifier occurring in real expansions but not in their inputs (recorded at check time); TLC enumerates pool identifier x namespace '
+                'position {field, variant, type parameter, const parameter, lifetime, type name, custom method name} x {struct, enum} x two trait sets; every item is compiled '
+                'inside a module that shadows Option/Some/None/Result/Ok/Err/Ordering/Clone/Default/Debug/... and again in a #![no_std] crate; it must be accepted and compile '
+                'without errors or warnings. Run-time behaviour under template-internal field names is judged by C02-C10 (their corpora draw field names from the same kind of pool).',
+        'samples': [{'source': rendered[0][1]}, {'source': rendered[len(rendered) // 2][1]}],
+    })
+    ctx.assumptions += COMMON_ASSUMPTIONS + ['the specification contributes the quantifier and the expectation only; Rust name resolution is not modelled (DESIGN.md section 10)']
+
+
 import tlc as _tlc_for_paths
 ROOT_WORK = _tlc_for_paths.WORK
 
 
 REGISTRY = {
     'C18': c18,
+    'C19': c19,
     'C01': c01,
     'C12': c12,
     'C11': c11,
